@@ -664,7 +664,9 @@ def vkey(v, c):
     """Violation key: identifies the failing call site / shape so that known findings can be matched."""
     got = v["got"]
     if got == "panic" or v["key"].startswith("panic:"):
-        return v["key"] or "panic:unknown"
+        # call site + how it was reached: a recorded panic site reached through a new kind of input (say a
+        # path fault instead of an invalid clang argument) is a different violation
+        return "%s:clang=%s,path=%s" % (v["key"] or "panic:unknown", v["facts"]["clang"], v["facts"]["path"])
     if got in ("hang", "signal"):
         return "%s:%s" % (v["key"] or got, fail_shape(c))
     if v["key"]:
